@@ -33,7 +33,7 @@ PROP = dict(
                  "destination buffers handed to read/pread(void*) hold exactly the in-range prefix, those handed to readx/preadx(void*) and the source handed to pwrite/write/skip_if hold min(size, n+1) bytes when the request is out of range (a correct implementation validates before copying)",
                  "where the empty reader that a clamping sub() returns points to is not specified (pointer identity of pgetv/getv/peek is not checked inside it)",
                  "the const std::string& and shared_ptr<string> constructors read a std::string's buffer, which ASan guards less exactly than the exactly-sized heap block of the (pointer, size) form; values, exceptions and extents are compared all the same",
-                 "truncate() below the cursor counts, like go(), as an explicit way of placing the cursor beyond the end"],
+                 "where the cursor is after truncate() is not stated: truncate() below the cursor may leave it (it then counts, like go(), as an explicit way of placing the cursor beyond the end) or pull it back into the shortened data; the model continues from the reported position"],
     min_evaluations_quick=1000000, min_evaluations_thorough=3000000,
     technique=("property-based testing: exhaustive boundary grid + rapidcheck cursor histories against a 128-bit-arithmetic slice model, "
                "on exactly-sized heap blocks under AddressSanitizer / UBSan(pointer-overflow, bounds)"),
